@@ -133,4 +133,33 @@ PROPS = {
                          "lean/Model/LineSpec.lean: the lexical classes (specification)"],
         "assumptions": ["float spellings come from strconv/encoding/json (Ext)"],
     },
+    "C02": {
+        "kind": "c02",
+        "module": "Props.C02",
+        "namespace": "Jl.C02",
+        "rule": ("grammar-directed RFC 8259 objects: any member order, depth <= 4 random plus fixed depth 64, arrays of objects, empty "
+                 "containers, every escape spelling (raw UTF-8, \\uXXXX, surrogate pairs, all short escapes, escaped and raw U+2028, DEL), "
+                 "number spellings (-0, 1E+2, 0.10, 30-digit integers, 1e-400, 1e400), arbitrary insignificant whitespace; out-of-domain "
+                 "inputs (duplicate names, lone surrogates, invalid UTF-8) are run for correspondence only. Read with an empty template, "
+                 "written with an empty template, and the output fed back once more; judged by c02Violation: accepted, the output denotes "
+                 "the same ordered tree (strings decoded, number literals verbatim), second pass byte-identical. distinct = distinct "
+                 "input texts; non-trivial = in-domain"),
+        "trusted_base": [KERNEL, CORR, "lean/Model/JsonRead.lean, RowPrint.lean, Value.lean (hand-written; byte-exact correspondence)"],
+        "assumptions": ["domain as stated by the property: unique member names at every depth, well-formed Unicode"],
+    },
+    "C16": {
+        "kind": "c16",
+        "module": "Props.C16",
+        "namespace": "Jl.C16",
+        "rule": ("~90 hand-written texts (every rejection class named by the property, truncations, trailing content, comments, BOM, NUL, "
+                 "vertical tab, form feed, NBSP, 70 KB string) and, per random valid object: the object, a truncation at a random offset, a "
+                 "1-3 byte mutation (insert / delete / replace from the structural alphabet plus control and non-UTF-8 bytes), trailing "
+                 "content; thorough: every string of length <= 5 over the 15-character structural alphabet. Importer.GetRow, "
+                 "Template.CreateRow(string) and Row.UnmarshalJSON must agree; judged: accepted iff the Lean recogniser accepts (and declared "
+                 "columns convert); a rejected line returns a nil row. The recogniser is also compared with encoding/json's json.Valid on "
+                 "every case. distinct = distinct (template, text); non-trivial = hand-written, truncated, mutated or extended texts"),
+        "trusted_base": [KERNEL, CORR, "lean/Model/JsonRead.lean: port of json.Decoder token mode + row.go's parser (validated against the code and against json.Valid)",
+                         "lean/Model/JsonGrammar.lean: RFC 8259 at byte level (specification)"],
+        "assumptions": ["ill-formed UTF-8 and escaped lone surrogates inside string literals are accepted (implementation-defined in RFC 8259; DESIGN.md §10)"],
+    },
 }
